@@ -15,13 +15,13 @@ git checkout -q -- . 2>/dev/null; git clean -fdq -e _out -e target 2>/dev/null
 git checkout -q --detach $(git -C /repo rev-parse HEAD) 2>/dev/null
 log=$out/validation.log; : > $log
 echo "== demo on the unchanged tree" >> $log
-sh $out/demo/run.sh $wt >> $log 2>&1; base=$?
+bash $out/demo/run.sh $wt >> $log 2>&1; base=$?
 git checkout -q -- . ; git clean -fdq -e _out -e target
 if ! git apply $out/patch.diff; then echo "PATCH DOES NOT APPLY to current HEAD" | tee -a $log; exit 2; fi
 echo "== test suite with the change" >> $log
 timeout 1200 cargo nextest run --workspace --no-fail-fast --offline --test-threads 8 >> $log 2>&1; suite=$?
 echo "== demo with the change" >> $log
-sh $out/demo/run.sh $wt >> $log 2>&1; with=$?
+bash $out/demo/run.sh $wt >> $log 2>&1; with=$?
 git checkout -q -- . ; git clean -fdq -e _out -e target
 echo "seed $name: demo-without=$base suite-with=$suite demo-with=$with"
 valid=no; [ $base -eq 0 ] && [ $suite -eq 0 ] && [ $with -ne 0 ] && valid=yes
